@@ -130,3 +130,9 @@ Definition bracket_tostr (brackets : text) (r : bres) : text :=
   | BIn inner => lft ++ inner ++ rgt
   | _ => lft ++ rgt
   end.
+
+(* ---- Name.match(string) = StringBase.match(pattern.abs_name, string.strip()) with abs_name = \A[A-Z][\w$]*\Z, re.I;
+        Label.match(string) = StringBase.match(pattern.abs_label, string) with abs_label = \A\d{1,5}\Z *)
+Definition name_match (s : text) : option text := if is_name (strip s) then Some (strip s) else None.
+Definition is_label (t : text) : bool := (1 <=? length t) && (length t <=? 5) && forallb is_digit t.
+Definition label_match (s : text) : option text := if is_label s then Some s else None.
